@@ -105,7 +105,7 @@ def esc_for(q, v, rng, style):
         elif c == "\t":
             out.append("\\t" if style else "\t")
         elif c == "\r":
-            out.append("\\r")
+            out.append("\r" if style == 0 else "\\r")       # style 0 writes control characters raw (CR, CR LF inside the quotes)
         elif c == "/" and style == 2:
             out.append("\\/")
         elif o > 126 or o < 32:
@@ -226,10 +226,26 @@ def number_cases(rng, n, rows=(("0b", 2, 32), ("0x", 16, 12), ("0o", 8, 12))):
             e = rng.randrange(0, 19)
             m = rng.randrange(1, 10)
             out.append(("%de%d" % (m, e), ("real", Fraction(m * 10**e))) if m * 10**e < 2**53 else ("%d.0" % m, ("real", Fraction(m))))
+    # scientific notation with a non-trivial mantissa and negative / large exponents: the value the spelling denotes is
+    # the exact decimal rational; every comparison is against its correctly rounded binary64 (python's float(Fraction))
+    for _ in range(2 * n):
+        nd = rng.randrange(1, 18)
+        digits = str(rng.randrange(1, 10)) + "".join(rng.choice("0123456789") for _ in range(nd - 1))
+        e = rng.choice([rng.randrange(-30, 31), rng.randrange(-320, 309), rng.randrange(-8, 9)])
+        if len(digits) + e > 308:
+            e = 300 - len(digits)
+        point = rng.randrange(1, len(digits) + 1)
+        mant = digits[:point] + ("." + digits[point:] if point < len(digits) else "")
+        spelling = mant + rng.choice("eE") + (rng.choice(["", "+"]) if e >= 0 else "") + str(e)
+        out.append((spelling, ("real", Fraction(int(digits)) * Fraction(10) ** (e - (len(digits) - point)))))
+    for sp_ in ("1.1e-5", "6.02e23", "1.5e300", "2.2250738585072014e-308", "4.9e-324", "1e23", "9.007199254740993e15", "0.1e1", "123.456e-7", "3.14159e0"):
+        m_, e_ = sp_.split("e")
+        ip_, _, fp_ = m_.partition(".")
+        out.append((sp_, ("real", Fraction(int(ip_ + fp_)) * Fraction(10) ** (int(e_) - len(fp_)))))
     out += [("1.0", ("real", Fraction(1))), ("0.5", ("real", Fraction(1, 2))), ("1e3", ("real", Fraction(1000))), ("1_000.125_0", ("real", Fraction(8001, 8))),
             ("5e-1", ("real", Fraction(1, 2))), ("1e15", ("real", Fraction(10**15))), ("1e16", ("real", Fraction(10**16))), ("1e22", ("real", Fraction(10**22))),
             ("1.7976931348623157e308", ("real", Fraction(int("1fffffffffffff", 16) * 2**971))), ("5e-324", ("real", Fraction(1, 2**1074))),
-            ("1e-7", ("real", Fraction(float("1e-7")))), ("123456.789", ("real", Fraction(float("123456.789"))))]
+            ("1e-7", ("real", Fraction(1, 10**7))), ("123456.789", ("real", Fraction(123456789, 1000)))]
     return out
 
 
